@@ -16,8 +16,12 @@ func deleteChildOperator(d *dataTreeNavigator, context Context, expressionNode *
 		candidate := el.Value.(*CandidateNode)
 
 		if candidate.Parent == nil {
-			// must be a top level thing, delete it
-			return removeFromContext(context, candidate)
+			// must be a top level thing, delete it (and carry on: there may be more to delete)
+			context, err = removeFromContext(context, candidate)
+			if err != nil {
+				return Context{}, err
+			}
+			continue
 		}
 		log.Debugf("processing deletion of candidate %v", NodeToString(candidate))
 
